@@ -468,6 +468,12 @@ func NewHTTPRequest(r model.ReqSpec, id string) *http.Request {
 		Host:       "example.com",
 		RequestURI: r.Path,
 	}
+	if r.EscSlash > 0 {
+		if raw := EscapeKthSlash(r.Path, r.EscSlash); raw != "" {
+			hr.URL.RawPath = raw
+			hr.RequestURI = raw
+		}
+	}
 	for _, h := range r.Headers {
 		hr.Header[h.K] = append(hr.Header[h.K], h.V)
 	}
@@ -483,6 +489,26 @@ func NewHTTPRequest(r model.ReqSpec, id string) *http.Request {
 		}
 	}
 	return hr
+}
+
+// EscapeKthSlash returns the escaped form of path in which the k-th slash after the leading one
+// is written %2F ("" if there is no such slash or the result is no valid encoding of path).
+func EscapeKthSlash(path string, k int) string {
+	canon := (&url.URL{Path: path}).EscapedPath()
+	n := 0
+	for i := 1; i < len(canon); i++ {
+		if canon[i] == '/' {
+			n++
+			if n == k {
+				raw := canon[:i] + "%2F" + canon[i+1:]
+				if (&url.URL{Path: path, RawPath: raw}).EscapedPath() == raw {
+					return raw
+				}
+				return ""
+			}
+		}
+	}
+	return ""
 }
 
 // Via names the entry point.
